@@ -8,7 +8,7 @@ rm -rf "$WT"; git -C /repo worktree prune
 git -C /repo worktree add --detach "$WT" "$C" >/dev/null 2>&1
 cd "$WT"
 env -u PYVSC_VERIF PYTHONPATH="$WT/src" /venv/bin/python -m pytest -q -p no:cacheprovider --timeout=900 \
-  --continue-on-collection-errors -n 10 --junitxml=/tmp/pvs_junit_$TAG.xml > /tmp/pvs_suite_$TAG.log 2>&1 || true
+  --continue-on-collection-errors -W ignore::DeprecationWarning -n 10 --junitxml=/tmp/pvs_junit_$TAG.xml > /tmp/pvs_suite_$TAG.log 2>&1 || true
 cd /
 git -C /repo worktree remove --force "$WT"
 /venv/bin/python - "$TAG" <<'PY'
